@@ -7,7 +7,7 @@ LISTS = ['as_list', 'lens', 'zipper']
 CMP = ['axiom validation', 'cmp', 'has_nan', 'sort']
 DEPENDS = {
     'C01': [('C19', LISTS)],
-    'C02': [('C07', CMP), ('C01', ['__getitem__.tuple', '__getitem__.column', '__iter__', '__len__'])],
+    'C02': [('C07', CMP), ('C01', ['__getitem__.tuple', '__getitem__.column', '__getitem__.ints', 'constructor.rows', '__iter__', '__len__'])],
     'C03': [('C19', ['as_list', '_wrapped', '_item_by'])],
     'C04': [('C19', ['as_list'])],
     'C05': [('C04', ['_ymd', 'dt'])],
